@@ -273,9 +273,23 @@ macro_rules! range_type {
             ensure!(k == w, "const_eq_for!(range; {a:?},{b:?}, |l,r|) = {k}");
             let k = const_eq_for!(range; a, b, |x| *x);
             ensure!(k == w, "const_eq_for!(range; {a:?},{b:?}, |x| *x) = {k}");
-            let (a, b) = (vals[c.a[0]]..=vals[c.a[1]], vals[c.b[0]]..=vals[c.b[1]]);
+            #[allow(unused_mut)]
+            let (mut a, mut b) = (vals[c.a[0]]..=vals[c.a[1]], vals[c.b[0]]..=vals[c.b[1]]);
+            // `some_a == false` / `some_b == false`: that operand has been iterated to exhaustion (short ranges only);
+            // std's `==` then also compares the hidden `exhausted` flag
+            let short = |r: &std::ops::RangeInclusive<$t>| (*r.end() as u128).wrapping_sub(*r.start() as u128) < 4 && r.start() <= r.end();
+            let (xa, xb) = (!c.some_a && short(&a), !c.some_b && short(&b));
+            if xa { for _ in a.by_ref() {} }
+            if xb { for _ in b.by_ref() {} }
             let w = a == b;
             let k = $eqri(&a, &b);
+            if (xa != xb) && k && !w && a.start() == b.start() && a.end() == b.end() {
+                // alternative model of the listed finding: equal start()/end(), only the hidden flag differs
+                let k2 = const_eq!(a, b);
+                let k3 = const_eq_for!(range_inclusive; a, b);
+                ensure!(k2 && k3, "{}({a:?},{b:?}) = {k} but const_eq! = {k2}, const_eq_for! = {k3}", stringify!($eqri));
+                return Err(format!("EXHAUSTED_RANGE {}({a:?}, {b:?}) = true, `==` gives false: one operand has been iterated to exhaustion", stringify!($eqri)));
+            }
             ensure!(k == w, "{}({a:?},{b:?}) = {k}", stringify!($eqri));
             let k = const_eq!(a, b);
             ensure!(k == w, "const_eq!({a:?},{b:?}) = {k}");
@@ -504,7 +518,16 @@ fn eval(ctx: &mut Ctx, c: Case) {
         } else if mix || matches!(c.form.as_str(), "scalar" | "nonzero" | "range" | "misc" | "laws") {
             ctx.nontrivial(&format!("{}/{}", c.form, c.ty), &c, || json!(c));
         }
-        run_case(&c)
+        match run_case(&c) {
+            Err(m) if m.starts_with("EXHAUSTED_RANGE") => {
+                if ctx.known_hit("exhausted-range-inclusive-equality", || json!({"case": c, "message": m})) {
+                    Ok(())
+                } else {
+                    Err(m)
+                }
+            }
+            r => r,
+        }
     });
 }
 
@@ -560,7 +583,7 @@ fn explore(ctx: &mut Ctx) {
     for (name, _) in RANGES {
         for a in 0..9 {
             for b in 0..9 {
-                eval(ctx, case(name, "range", vec![a / 3, a % 3], vec![b / 3, b % 3]));
+                options(ctx, case(name, "range", vec![a / 3, a % 3], vec![b / 3, b % 3]));
             }
         }
     }
